@@ -499,13 +499,14 @@ class FnTr:
         self.var_off[v["id"]] = None if v.get("kind") == "ParmVarDecl" else offset_of(v)
         return name, t
 
-    def add_abstract(self, name, lty):
+    def add_abstract(self, name, lty, own=False):
         if name in self.abstract:
             if self.abstract[name] != lty:
                 raise Fail(f"abstract parameter {name} used at two types")
         else:
-            if name in self.used_names:
+            if name in self.used_names and not own:
                 raise Fail(f"abstract parameter name {name} clashes with a variable")
+            self.used_names.add(name)
             self.abstract[name] = lty
         return name
 
@@ -559,18 +560,11 @@ class FnTr:
             ps.append(f"(self : {struct_name(self.cls)})")
         if self.slice:
             free = self.free_vars(text)
-            for vid, (n, t) in self.vars.items():
-                if n in free:
-                    ps.append(f"({n} : {self.param_ty(t, n)})")
+            before = {n for vid, (n, t) in self.vars.items() if self.var_off.get(vid) is None or self.var_off[vid] < self.slice_off}
+            ps += [f"({n} : {lt})" for n, lt in self.canon_params() if n in free and (n in before or n in self.abstract)]
         else:
-            for n, t, p in plist:
-                if t[0] == "class" and t[1] not in self.mod.classes and not self.param_is_struct(t):
-                    continue     # opaque object: only its observers appear, as abstract parameters
-                if t[0] == "vec":
-                    continue     # appears as abstract function parameter
-                ps.append(f"({n} : {self.param_ty(t, n)})")
-        for n, lt in self.abstract.items():
-            ps.append(f"({n} : {lt})")
+            pnames = {n for n, t, p in plist}
+            ps += [f"({n} : {lt})" for n, lt in self.canon_params() if n in pnames or n in self.abstract]
         if self.void:
             rt = struct_name(self.cls)
         else:
@@ -597,6 +591,25 @@ class FnTr:
     def param_is_struct(self, t):
         # a class-typed parameter is a structure iff it is the class of some kernel's receiver (e.g. `other`)
         return t[0] == "class" and (t[1] == self.cls or (self.cls and t[1] == self.cls.split("::")[-1]) or self.canon_class(t[1]) in self.mod.classes)
+
+    def canon_params(self):
+        """[(lean name, lean type)] of everything that can become a Lean parameter, in canonical order: C++ declaration
+        order; an opaque object is replaced by its observers (sorted by name), a vector by itself and its `_size`."""
+        out, taken = [], set()
+        for vid, (n, t) in self.vars.items():
+            if t[0] == "class" and not self.param_is_struct(t):
+                for a in sorted(x for x in self.abstract if x.startswith(n + "_")):
+                    out.append((a, self.abstract[a])); taken.add(a)
+            elif t[0] == "vec":
+                for a in (n, n + "_size"):
+                    if a in self.abstract:
+                        out.append((a, self.abstract[a])); taken.add(a)
+            elif is_int(t) or t[0] == "class":
+                out.append((n, self.param_ty(t, n)))
+        for a in sorted(self.abstract):
+            if a not in taken:
+                out.append((a, self.abstract[a]))
+        return out
 
     def canon_class(self, q):
         if self.cls and (q == self.cls or self.cls.endswith("::" + q)):
@@ -628,6 +641,9 @@ class FnTr:
         if len(i0) != 1 or len(i1) != 1 or i0[0] >= i1[0]:
             raise Fail(f"slice markers {s['from_decl']} / {s['until_decl']} not found as top-level declarations (in this order)")
         sel = stmts[i0[0]:i1[0]]
+        self.slice_off = offset_of(sel[0])
+        if self.slice_off is None:
+            raise Fail("slice starts inside a macro expansion")
         outs = []
         for name in s["outputs"]:
             ids = [vid for vid, (n, t) in self.vars.items() if n == lean_ident(name)]
@@ -828,6 +844,10 @@ class FnTr:
             b = self.seq(el, k, ctx)
             return f"if {c} then\n{ind(a)}\nelse\n{ind(b)}"
         av = [v for v in self.assigned(th + el) if v not in self.declared_in(th + el)]
+        order = {"self": -1}
+        for i, (vid, (n, t)) in enumerate(self.vars.items()):
+            order[n] = i
+        av.sort(key=lambda v: order[v])       # canonical (declaration) order
         if not av:
             return k
         if len(av) == 1:
@@ -881,26 +901,24 @@ class FnTr:
         if loop_off is None:
             raise Fail(f"{pos_of(s)}: loop inside a macro expansion")
         init_ids = {x["id"] for st in init for x in walk(st) if x.get("kind") == "VarDecl"}
-        inscope = []
+        visible = set()
         for vid, (n, t) in self.vars.items():
-            if n not in used:
-                continue
             o = self.var_off.get(vid)
             if vid in init_ids or o is None or o < loop_off:
-                inscope.append(n)
+                visible.add(n)
+        canon = [(n, lt) for n, lt in self.canon_params() if n in used and (n in visible or n in self.abstract)]
         if "self" in used:
             self.uses_self = True
-            inscope = ["self"] + inscope
+            canon = [("self", struct_name(self.cls))] + canon
         for v in carried:
-            if v not in inscope:
-                inscope.append(v)
-        fixed = [v for v in inscope if v not in carried]
-        abstract = [n for n in self.abstract if n in used]
-        fx = "".join(f" ({v} : {self.var_type_text(v)})" for v in fixed)
-        fx += "".join(f" ({n} : {self.abstract[n]})" for n in abstract)
+            if v not in [n for n, _ in canon]:
+                raise Fail(f"{pos_of(s)}: internal: loop-carried variable {v} is not visible at the loop")
+        fixedp = [(n, lt) for n, lt in canon if n not in carried]
+        fixed = [n for n, _ in fixedp]
+        fx = "".join(f" ({n} : {lt})" for n, lt in fixedp)
         rt = struct_name(self.cls) if self.void else lean_ty(self.ret_t)
         rt = f"Option {rt}" if " " not in rt else f"Option ({rt})"
-        call = " ".join([hname, "fuel0"] + fixed + abstract + ["fuel"] + carried)
+        call = " ".join([hname, "fuel0"] + fixed + ["fuel"] + carried)
         body_text = body_text.replace(CALLMARK, call)
         pats = ", ".join(["fuel+1"] + carried)
         zero = ", ".join(["0"] + ["_"] * len(carried))
@@ -911,7 +929,7 @@ class FnTr:
              f"  | {pats} =>\n"
              f"    if {c} then\n{ind(body_text, 6)}\n    else\n{ind(k, 6)}\n")
         self.helpers.append(h.replace(FUELMARK, "fuel0"))
-        start = " ".join([hname, FUELMARK] + fixed + abstract + [FUELMARK] + carried)
+        start = " ".join([hname, FUELMARK] + fixed + [FUELMARK] + carried)
         return self.seq(init, start, {})
 
     # ---- expressions --------------------------------------------------------------------------
@@ -1251,7 +1269,7 @@ class FnTr:
                         raise Fail(f"{pos_of(n)}: subscript on a non-const vector")
                     idx = self.expr(n["inner"][2])
                     self.note(n, f"subscript `{vname}[..]`: index must be < {vname}.size()")
-                    self.add_abstract(vname, lean_ty(vt))
+                    self.add_abstract(vname, lean_ty(vt), own=True)
                     return f"({vname} ({idx}).toNat)"
         raise Fail(f"{pos_of(n)}: overloaded operator call is outside the supported subset")
 
